@@ -3,7 +3,17 @@ SYM_H = 'src/lib/ebus/symbol.h'
 
 _acc = dict(file=SYM_H, inline_class='SymbolString', self='SymbolString')
 
+def _replay(run, inputs, rp, repo, verif):
+    import replay
+    exe = replay.build('symbol', ['src/lib/ebus/symbol.cpp', 'src/lib/ebus/result.cpp'], repo, verif)
+    what = 'addr' if run['id'].startswith('addr_') else run['id']
+    return replay.run(exe, [what])
+
+
 UNIT = dict(
+    replay=_replay,
+    trusted=['C model of strtoul/strtol (model/vlibc.h): ISO C semantics incl. white space, sign, 0x prefix, ERANGE',
+             'fixed-capacity models of std::vector<symbol_t> (SS_CAP=264) and std::string (VSTR_CAP per run); exceeding the capacity is an asserted obligation'],
     enums=[('src/lib/ebus/result.h', 'result_t'), (SYM_H, 'PredefinedSymbol', 'PredefinedSymbol', 'symbol_t')],
     structs=[dict(file=SYM_H, classes=['SymbolString'], cname='SymbolString', member_types={'m_data': 'vsym'})],
     tables=[(SYM_CPP, 'CRC_LOOKUP_TABLE')],
